@@ -93,7 +93,7 @@ func c17Items(seed uint64) []c17Item {
 	}
 	out = append(out, c17Item{Kind: "faulty", Text: "grammar leak2;\n/* never closed", FailAt: 20}, c17Item{Kind: "faulty", Text: "grammar leak3;\nLEAKED = \"", FailAt: 24})
 	for _, p := range []string{`[a-z]+`, `(a|b)*abb`, `[0-9]+(\.[0-9]+)?`, `a{2,3}b?`, `\w+\s*`, `"[^"]*"`, `x{1}`, `[\x0100-\x0110]`, `(ab){2,}`, `.+`, `[[:alpha:]_][[:alnum:]_]*`, `a|b|c`, `a`, `(a|b)*`,
-		`[b-a]`, `[9-0]x`, `a{4,2}`, `x{3,1}y`, `[0-9]{4,2}(`, `[b-a`, `[^9-0`, `a{4,2}(`, `(x{3,1}`, `x{3,1})`, `[`, `(`, `a)`, `*a`, ``, `[z-a]{5,1}`, `[a-a]`, `\p{Nope}`} {
+		`[b-a]`, `[9-0]x`, `a{4,2}`, `x{3,1}y`, `[0-9]{4,2}(`, `[b-a`, `[^9-0`, `a{4,2}(`, `(x{3,1}`, `x{3,1})`, `[`, `(`, `a)`, `*a`, ``, `[z-a]{5,1}`, `[a-a]`, `\p{Nope}`, `\p{Greek}+`, `\P{Greek}+`, `\P{Lu}x`, `\p{Lu}x`, `[\p{Ll}0-9]`, `[^\p{Ll}0-9]a`, `\S+\s`, `\s+\S`} {
 		out = append(out, c17Item{Kind: "pattern", Text: p})
 	}
 	return out
